@@ -103,3 +103,12 @@ Proof.
     rewrite E in H0. destruct H0. }
   unfold site_covered in Hc. apply existsb_exists in Hc. exact Hc.
 Qed.
+
+(* final pass: textPath and switch.  The element a textPath references is handed to shapes::convert only
+   (G_TEXTPATH_NO_FOLLOW) and no function of shapes.rs / switch.rs contains a link-following construct: a reference
+   that ends in text.rs resolve_text_flow has no outgoing edge in the walk, so it cannot close a cycle; a switch
+   adds no edge of its own and passes the caller's state on (G_SWITCH_AS_GROUP is part of guard_push). *)
+Lemma textpath_switch_follow_nothing :
+  G_TEXTPATH_NO_FOLLOW = true /\ G_SWITCH_AS_GROUP = true /\ no_follow_files = true /\
+  (forall m, guard_push m = true).
+Proof. repeat split. intro m. destruct m; reflexivity. Qed.
